@@ -1,6 +1,7 @@
 import Driver.Loop
 import IrohModel.Common.Hex
 import IrohModel.C26.Model
+import IrohModel.C26.Caller
 open IrohModel IrohModel.C26
 
 /-- Decimal without sign, 1–6 digits (the harness parses the same language). -/
@@ -27,8 +28,19 @@ def call? (s : String) : Option Call :=
     | _ => none
   | _ => none
 
+/-- `h<u>` | `hn` | `t<u>` with `u` ∈ {0, 1} (the harness runs two relays) -/
+def glueOp? (s : String) : Option GlueOp :=
+  if s = "hn" then some (.home none)
+  else match s.toList with
+  | 'h' :: r => (nat6? (String.ofList r)).bind fun u => if u ≤ 1 then some (.home (some u)) else none
+  | 't' :: r => (nat6? (String.ofList r)).bind fun u => if u ≤ 1 then some (.traffic u) else none
+  | _ => none
+
 /-- payload:
   `sched <calls of thread 0>|<calls of thread 1>|… <schedule>`  (lists `a,b,c` or `-`)
+  `glue <op>,…` — messages for the real `RelayActor` (`h<u>`/`hn`: NetworkChange with preferred relay u /
+  none, `t<u>`: a datagram via relay u), handled one at a time; output: the advertised relay after each
+  (`n`, `<u>C` connected).
   `stress <urls> <updaters per url> <rounds>` — free-running threads; the model's prediction is that
   the chooser never sees a stale url. -/
 def handleLine (payload : String) : String :=
@@ -38,6 +50,10 @@ def handleLine (payload : String) : String :=
     | some calls, some sched =>
       if calls.length ≤ 16 then render (runCase codeLk calls sched) else "bad-input"
     | _, _ => "bad-input"
+  | ["glue", ops] =>
+    match (ops.splitOn ",").mapM glueOp? with
+    | some ops => if ops.length ≤ 24 then " ".intercalate ("glue" :: runGlue codeSa codeLk cinit ops) else "bad-input"
+    | none => "bad-input"
   | ["stress", u, p, r] =>
     match nat6? u, nat6? p, nat6? r with
     | some u, some p, some _ => if u ≥ 1 ∧ u * p ≤ 64 then "stress stale=0 final=ok" else "bad-input"
